@@ -44,6 +44,7 @@ static volatile int crc32_tables_initialized = 0;
 /* Verification hook (off by default): make the lookup tables cold again. */
 void carquet_verif_reset_crc32(void) {
     crc32_tables_initialized = 0;
+    memset(crc32_tables, 0, sizeof(crc32_tables));  /* really cold, not just flagged cold */
 }
 #endif /* CARQUET_VERIF */
 
